@@ -14,7 +14,45 @@ SETUP = (
 )
 BASELINE = "cd /repo && /venv/bin/python -m pytest -ra -q -p no:cacheprovider --timeout=900 --continue-on-collection-errors"
 
+TECHNIQUE = {
+    "C01": "runtime monitoring: paired-execution (2-safety) monitor on the real geom.convolve with a NumPy reference group action; integer-exact lattice and basis x basis operands; R-monitor on every convolve return",
+    "C02": "runtime monitoring: reference-model postcondition on every return of the three times_group_element entry points + group-law trace checks (identity, composition, inverse, linearity, bijection with unique ids)",
+    "C03": "runtime monitoring: postcondition contract on get_unique_invariant_filters (invariance under a reference action, exact rational rank, integer character formula) over a finite swept space",
+    "C04": "runtime monitoring: reference-model postcondition (direct-sum convolution) on every return of convolve/convolve_contract under a random product of option sets; repository suite re-run under the monitor",
+    "C05": "runtime monitoring: paired node-by-node trace comparison of random typed expression trees evaluated by the real operators on L and g.L",
+    "C06": "runtime monitoring: paired-execution monitor on ConvContract.__call__ with perturbed parameters and harness-built invariant banks",
+    "C07": "runtime monitoring: class-level probes record the layer-by-layer trace of real model runs; layer-synchronised and end-to-end paired-execution oracles with conditioning-aware thresholds",
+    "C08": "runtime monitoring: paired-execution monitor on the real normalisation / nonlinearity / pooling blocks with random parameters, near-tie and conditioning guards",
+    "C09": "runtime monitoring: invariant at a hook (bank-ratio after every real train_step) + paired-execution monitors on the model returned by the real ml.train and on the amplified parameter displacement",
+    "C10": "runtime monitoring: paired-execution monitor on GroupAverage/Climate1D with adversarial recording inner models; unique-id history check of to1d/from1d",
+    "C11": "runtime monitoring: reference-model postcondition on every ConvContract.__call__ (defining sum + bias rule evaluated in NumPy from the layer's own state), also inside whole model runs",
+    "C12": "runtime monitoring: class-level recorders on MultiImage arithmetic with unique-id payloads over random construction histories (history checker + per-type reference)",
+    "C13": "runtime monitoring: unique-id history checker over random nested chains of inverse re-layout pairs; icontract structural invariant at every MultiImage method exit; bitwise save/load comparison",
+    "C14": "runtime monitoring: per-entry comparison of multi-image operations with the single-image operation and NumPy references; vmap-vs-single and replace-the-others paired executions",
+    "C15": "runtime monitoring: forwarding recorders on the windowing functions; unique-id frames compared with the window table of the statement (complete sweep of the tuple space in thorough)",
+    "C16": "runtime monitoring: the model is the probe (records every input, answers with fresh unique ids); sliding-window reference over the recorded history",
+    "C17": "runtime monitoring: recorder on get_batches; unique sample ids decode every batch (exactly-once, alignment, order)",
+    "C18": "runtime monitoring: reference-model postcondition on the three losses + order/jit/zero/non-negativity/invariance trace laws",
+    "C19": "runtime monitoring: state-machine checker stepped in lock-step with StopCondition.stop over exhaustively enumerated loss histories; real ml.train runs under a logical-step watchdog",
+    "C20": "runtime monitoring: type-flow oracle along the recorded layer trace of real model runs; icontract structural invariant; unique-id check of the conventional flatten/unflatten",
+}
+
 PENDING_REASON = "check not built yet in this session (planned in DESIGN.md section 3); not claimed until its monitor exists"
+
+
+def level_text(mod):
+    doc = " ".join((mod.__doc__ or "").split())
+    ex = getattr(mod, "EXHAUSTIVE", {})
+    tail = (
+        " Assurance: the property held on every monitored execution of the real code in the run (counts, histograms of the visited "
+        "option cells, reachability of the anchored functions and sample cases are in the evidence file); nothing is claimed about "
+        "executions that were not produced. "
+    )
+    if ex and ex.get("thorough"):
+        tail += "The discrete quantifier of this property is finite up to the stated bound and is swept completely; the values are exact, so within the bound the verdict is complete."
+    else:
+        tail += "Exploration is the right level because the property quantifies over real-valued operands and an option/architecture product that cannot be enumerated; integer-exact data, complete bases for small configurations and generic points narrow the gap (DESIGN.md section 1)."
+    return doc + tail
 
 
 def build():
@@ -38,11 +76,11 @@ def build():
                 "engine": "vmon",
                 "level_claimed": {
                     "category": "exploration",
-                    "text": getattr(mod, "LEVEL_TEXT", "") or (mod.__doc__ or "").strip().split("\n\n")[0],
+                    "text": getattr(mod, "LEVEL_TEXT", "") or level_text(mod),
                     "design_ref": f"DESIGN.md section 3, {pid}",
                 },
                 "level_note": getattr(mod, "LEVEL_NOTE", "; ".join(getattr(mod, "ASSUMPTIONS", []))),
-                "technique": getattr(mod, "TECHNIQUE", "runtime monitoring: probes on the real callables + reference-model / paired-execution oracle over recorded events"),
+                "technique": TECHNIQUE.get(pid, "runtime monitoring"),
             }
         )
     man = {
